@@ -283,8 +283,98 @@ def accumulator_local(b, l, defs_all, depth=0):
     return True
 
 
-def discharge(b, i, kind, detail, t, defs, cmps, dom):
-    """Return the name of the tactic that discharges the site, or None."""
+def field_types(f):
+    """`Struct.field` / `Enum::Variant.field` -> type string lookup for the zone analysis (cached on the fact base)."""
+    ft = getattr(f, '_field_table', None)
+    if ft is None:
+        import zones
+        ft = zones.field_table(f)
+        f._field_table = ft
+    return ft.get
+
+
+def calibration(ctx, P):
+    """The discharger is exercised on every run against the calibration crate selftest/zonecases (compiled with the same driver,
+    never executed): every site of an `ok_*` function must be discharged, and every `bad_*` function (which can panic for some
+    argument) must keep at least one undischarged site.  A discharger that became unsound or lost its power fails the check."""
+    import run, facts as factsmod, core
+    here = os.path.dirname(os.path.dirname(os.path.abspath(__file__)))
+    try:
+        f = factsmod.load(run.extract_aux(os.path.join(here, 'selftest', 'zonecases'), 'zonecases'))
+    except Exception as e:
+        ctx.violation(P + ':panic:calibration', 'R-panic', 'calibration crate could not be analysed (fail closed): %s' % (e,), fail_closed=True)
+        return
+    fty = field_types(f)
+    nok = nbad = 0
+    wrong = []
+    for p, r in sorted(f.bodies.items()):
+        name = p.split('::')[-1]
+        if not name.startswith(('ok_', 'bad_')):
+            continue
+        b = core.B(r)
+        defs = single_defs(b)
+        cmps = all_cmps(b, defs)
+        dom = b.dominators()
+        ks = keyed_sites(b)
+        res = [discharge(b, i, kind, detail, t, defs, cmps, dom, fty) for key, i, kind, detail, t in ks]
+        allok = all(res)
+        if name.startswith('ok_'):
+            nok += 1
+            if not allok or not ks:
+                wrong.append(name)
+        else:
+            nbad += 1
+            if allok:
+                wrong.append(name)
+    ctx.check(P + ':panic:calibration', 'R-panic',
+              'discharger calibrated: all sites of %d safe functions discharged, %d functions that can panic keep an undischarged site' % (nok, nbad),
+              not wrong, count=nok + nbad, missing=('wrong verdict on: ' + ', '.join(wrong)) if wrong else None)
+    ctx.floor(P + ':panic:calibration:floor', 'calibration cases', nok + nbad, 90)
+
+
+SOUND_T1 = ('T1-const-arith', 'T1-const-shift', 'T1-full-range', 'T1-const-range-on-array')
+
+
+def zone_of(b, defs, field_ty=None):
+    """Zone analysis of the body, computed once per body object."""
+    a = getattr(b, '_zone', None)
+    if a is None:
+        import zones
+        a = zones.analyse(b, defs, field_ty)
+        b._zone = a
+    return a
+
+
+def discharge(b, i, kind, detail, t, defs, cmps, dom, field_ty=None):
+    """Name of the argument that discharges the site, or None.
+
+    Z-zone: the zone analysis (engine/zones.py) proves that the assert / precondition holds in every state reaching the site.
+    T1-*:   constant arithmetic, constant shift amount, full range, constant range on a fixed-size array (syntactic, exact).
+    T4-*:   an addition / multiplication of values that are each bounded far below the 64-bit result type (lengths of in-memory
+            objects, widened <=32-bit integers, sums of those): cannot overflow on a machine whose address space is 64 bit.
+    The former syntactic guard tactics (T2-len-guard, T3-min, T3-mod-index, T4-guarded-sub, T1-const-divisor, T1-masked-shift)
+    were removed: the calibration crate selftest/zonecases shows each of them accepting a site that can panic."""
+    old = _syntactic(b, i, kind, detail, t, defs, cmps, dom)
+    if old in SOUND_T1:
+        return old
+    try:
+        z = zone_of(b, defs, field_ty).prove_site(i, kind, detail, t)
+    except Exception:
+        z = None
+    if z:
+        return 'Z-zone'
+    if old in ('T4-width', 'T4-length-accumulator') and kind == 'assert' and detail in ('Overflow(Add)', 'Overflow(Mul)'):
+        # the result type must be 64 bit wide for the width argument
+        for s in b.blocks[i]['s']:
+            if s['r']['k'] == 'bin' and s['r']['op'].startswith(('Add', 'Mul')):
+                ty = b.r['locals'][s['d']['l']]['ty']
+                if re.match(r'\((usize|u64|u128), bool\)$', ty or ''):
+                    return old
+    return None
+
+
+def _syntactic(b, i, kind, detail, t, defs, cmps, dom):
+    """The pre-zone syntactic tactics; only the exact T1 ones and the 64-bit width arguments are still used by discharge()."""
     if kind == 'assert' and detail.startswith('Overflow(') and all(const_eval(b, o, defs) is not None for o in t['o']):
         return 'T1-const-arith'
     if kind == 'assert' and detail in ('Overflow(Shl)', 'Overflow(Shr)') and len(t['o']) > 1 and const_eval(b, t['o'][1], defs) is not None:
